@@ -5,14 +5,14 @@ set -u
 NAME=$1; ID=${NAME%%-*}; shift; CHECKS=${@:-$ID}
 OUT=/verif/seeded/$NAME
 PP=$OUT/patch.diff; [ -f $OUT/patch_rebased.diff ] && PP=$OUT/patch_rebased.diff  # patch_rebased.diff is always the rebase onto the current /repo HEAD
-S=/var/tmp/pd-seed-$ID; rm -rf $S; cp -r /repo $S; git -C $S apply $PP || { echo "patch does not apply"; rm -rf $S; exit 2; }
+S=/var/tmp/pd-seed-$NAME; rm -rf $S; cp -r /repo $S; git -C $S apply $PP || { echo "patch does not apply"; rm -rf $S; exit 2; }
 cd /verif; RES=""
 for c in $CHECKS; do
-  VERIF_REPO=$S VERIF_BUILD=/verif/build/seed_$ID VERIF_EVIDENCE=$OUT/evidence VERIF_REPLAYS=$OUT/replays ./check $c > $OUT/check_$c.txt 2>&1; rc=$?
+  VERIF_REPO=$S VERIF_BUILD=/verif/build/seed_$NAME VERIF_EVIDENCE=$OUT/evidence VERIF_REPLAYS=$OUT/replays ./check $c > $OUT/check_$c.txt 2>&1; rc=$?
   nv=$(grep -c "^VIOLATION" $OUT/check_$c.txt); nf=$(grep -c "no-failing-input-found" $OUT/check_$c.txt)
   RES="$RES{\"check\":\"$c\",\"exit\":$rc,\"violation_lines\":$nv,\"without_failing_input\":$nf},"
 done
-rm -rf $S /verif/build/seed_$ID
+rm -rf $S /verif/build/seed_$NAME
 python3 - "$OUT" "[${RES%,}]" <<'PY'
 import json,sys
 out,res=sys.argv[1:3]
